@@ -1,7 +1,7 @@
 (** * C05 - Concurrent writers serialize per dataset, are atomically visible, never deadlock.
     Only statements, each closed by [exact <lemma>], with [Print Assumptions]. *)
 From Coq Require Import List NArith Bool Arith.
-From DH Require Import Model.Locks Proofs.LocksProofs Proofs.LocksSerial Check.C05Check Proofs.C05CheckProofs.
+From DH Require Import Model.Locks Proofs.LocksProofs Proofs.LocksSerial Proofs.LocksOrder Check.C05Check Proofs.C05CheckProofs.
 Import ListNotations.
 
 (** Any finite set of threads whose programs respect the lock order
@@ -22,6 +22,42 @@ Theorem C05_deadlock_free_ops : forall v (clients : list (list op)) c,
   terminal c = true \/ exists c', step c c'.
 Proof. exact deadlock_free_ops. Qed.
 Print Assumptions C05_deadlock_free_ops.
+
+(** The same for ANY comparison of locks that is irreflexive and transitive and that every
+    thread's acquisitions respect - nothing depends on the particular order chosen ... *)
+Theorem C05_deadlock_free_any_order : forall (lt : lock -> lock -> bool),
+  (forall a b c, lt a b = true -> lt b c = true -> lt a c = true) -> (forall a, lt a a = false) ->
+  forall ps c, Forall (ordered_by lt []) ps -> steps (init_config ps) c ->
+  terminal c = true \/ exists c', step c c'.
+Proof. exact deadlock_free_any_order. Qed.
+Print Assumptions C05_deadlock_free_any_order.
+
+(** ... but the comparison a transaction sorts its dataset names with must be TOTAL on distinct
+    names: then whatever the sort outputs (no element less than an earlier one) is the one strictly
+    increasing arrangement and the transaction's program respects the order. *)
+Theorem C05_sorted_txn_ordered : forall (lt : lock -> lock -> bool),
+  (forall a, lt a a = false) -> (forall a b, a <> b -> lt a b = true \/ lt b a = true) ->
+  forall ks ao uo, permb ao (part_keys ks) = true -> weak_sortedb lt ao = true ->
+  (forall d, In d (part_keys ks) -> lt d LCore = true) ->
+  ordered_by lt [] (txn_prog ks ao uo).
+Proof. exact ordered_by_txn. Qed.
+Print Assumptions C05_sorted_txn_ordered.
+
+(** refutation for a comparison that is transitive and irreflexive but not total on distinct
+    names (case-insensitive): dX01 / dx01 are unordered, both arrangements pass the sort, and two
+    transactions that got opposite ones deadlock *)
+Theorem C05_refuted_case_insensitive_order :
+  (forall a b c, fold_ltb a b = true -> fold_ltb b c = true -> fold_ltb a c = true) /\
+  (forall a, fold_ltb a a = false) /\
+  (LDs 1001 <> LDs 2001 /\ fold_ltb (LDs 1001) (LDs 2001) = false /\ fold_ltb (LDs 2001) (LDs 1001) = false) /\
+  weak_sortedb fold_ltb [LDs 1001; LDs 2001] = true /\ weak_sortedb fold_ltb [LDs 2001; LDs 1001] = true /\
+  exists c, steps (init_config [prog_of_ops current [wit_twin_12]; prog_of_ops current [wit_twin_21]]) c
+            /\ terminal c = false /\ forall c', ~ step c c'.
+Proof.
+  split; [exact fold_ltb_trans|]. split; [exact fold_ltb_irrefl|]. split; [exact fold_ltb_not_total|].
+  exact refuted_case_insensitive_order.
+Qed.
+Print Assumptions C05_refuted_case_insensitive_order.
 
 (** every client request completes: from every reachable configuration a terminal one is
     reachable, and every step consumes one instruction (no infinite run) *)
